@@ -130,7 +130,7 @@ def check(case):
                 try:
                     info = check_one(spec, v, case["sa"], case["sb"], opname, swap, case.get("detours", ("none", "none")))
                 except Violation as e:
-                    if e.kind == "iadd-partial-mutation":
+                    if e.kind in ("iadd-partial-mutation", "templateless-nested-sparse"):
                         known = known or e  # recorded deviation: keep checking the other combinations
                         continue
                     raise
@@ -204,6 +204,20 @@ def check_one(spec, v, sa, sb, opname, swap, detours=("none", "none")):
     dpath, kind_differs = first_difference(spec, v["spec"])
     nested = len(dpath) >= 1
     sig = {"variant": v["desc"].split(".")[0].split("->")[0].split(":")[0], "op": case["op"], "nested": nested}
+    # how many sparse containers (SparselyBin / Categorize value slots) lie above the differing node, and whether the
+    # LEFT operand is a JSON reload (template-less): known finding c10-templateless-nested-sparse is recognised by these
+    node, levels = spec, 0
+    for step in dpath:
+        if isinstance(node, dict) and node.get("k") in ("SparselyBin", "Categorize") and step == "value":
+            levels += 1
+        node = node[step] if isinstance(node, (dict, list)) else node
+    left_how = detours[1] if swap else detours[0]
+    if raised is None and realised and left_how == "reload" and levels >= 2:
+        raise Violation(
+            "templateless-nested-sparse",
+            f"{case['op']} with a JSON-reloaded left operand took over a bin whose structure differs [{v['desc']}] two sparse levels down without raising",
+            {"left": "reloaded", "sparse_levels": ">=2", "raised": False},
+        )
     # The difference must be observable in BOTH operands: a sparse container's template is instantiated once per
     # existing bin, possibly never, and an operand that never instantiated the differing node is indistinguishable
     # (document, ==) from one built with the other spec.  A different node *type* shows in its parent's "bins:type" as
